@@ -261,6 +261,11 @@ class Frame:
         return s
 
     def bad(self, n, rule, msg):
+        if getattr(self, '_inl', 0):
+            # inside a lambda typed in place captured variables are found by name and parameters by position: good enough to carry
+            # types through, not to rest a verdict on
+            raise AnalysisBroken('MIRROR: inside the lambda called at this point of %s the typing does not go through (%s: %s); lambdas are '
+                                 'typed in place on a best-effort basis' % (self.fn.name, rule, msg[:120]))
         self.mir.bad(self.fn, n, rule, msg)
 
     def join(self, a, b, n, what=''):
